@@ -68,7 +68,11 @@ fn map_map(
     let (cel, mut bindings) = helpers::setup_context(ctx);
     let mut mapped = Vec::new();
 
-    for key in map.into_keys() {
+    // iterate in sorted key order: HashMap order differs between runs and clones
+    let mut keys: Vec<String> = map.into_keys().collect();
+    keys.sort();
+
+    for key in keys.into_iter() {
         let value: CelValue = key.into();
         bindings.bind_param(ident_name, value.clone());
         let interp = Interpreter::new_child(ctx, &cel, &bindings);
